@@ -7,6 +7,7 @@
 package main
 
 import (
+	"bytes"
 	"encoding/json"
 	"fmt"
 	"io"
@@ -177,13 +178,52 @@ func ammoCases(rng *rand.Rand, n int) []Case {
 			}
 		}
 	}
+	// entries with bodies just above 1 MiB (where the decoders stop allocating the declared size at
+	// once) in front of a malformed line: each must come out with its own bytes
+	for _, format := range []string{"uripost", "raw"} {
+		for _, pre := range []bool{false, true} {
+			out = append(out, Case{Kind: "ammo", Format: format, Mut: "big-bodies", Preload: pre})
+		}
+	}
+	// an ammo file that is not there (removed between writing the config and starting the run)
+	for _, format := range []string{"uri", "uripost", "raw", "jsonline", "grpcjson", "json"} {
+		for _, mut := range []string{"missing-file", "missing-file+unbounded"} {
+			out = append(out, Case{Kind: "ammo", Format: format, Mut: mut, Text: []byte("x\n")})
+		}
+	}
 	out = append(out, Case{Kind: "ammo", Format: "grpcjson", Mut: "empty-file", Text: nil})
 	out = append(out, Case{Kind: "ammo", Format: "grpcjson", Mut: "blank-file", Text: []byte("\n\n")})
 	return out
 }
 
+// bigBodySizes: three entries whose bodies are filled with 'a', 'b', 'c'.
+var bigBodySizes = []int{1<<20 + 7, 1<<20 + 4099, 1 << 20}
+
+func bigBodiesFile(format string) []byte {
+	var b bytes.Buffer
+	for i, n := range bigBodySizes {
+		body := bytes.Repeat([]byte{byte('a' + i)}, n)
+		if format == "uripost" {
+			fmt.Fprintf(&b, "%d /big?vid=%d tag%d\n", n, i, i)
+			b.Write(body)
+			b.WriteString("\n")
+			continue
+		}
+		blk := fmt.Sprintf("POST /big?vid=%d HTTP/1.1\r\nHost: h.example.org\r\nContent-Length: %d\r\n\r\n", i, n)
+		fmt.Fprintf(&b, "%d tag%d\n%s", len(blk)+n, i, blk)
+		b.Write(body)
+		b.WriteString("\n")
+	}
+	b.WriteString("this is not an entry\n")
+	return b.Bytes()
+}
+
 func runAmmo(res *vkit.Result, c Case, final bool, watchdog time.Duration) string {
 	key := func(check string) string { return fmt.Sprintf("C13/ammo/%s/%s/%s", c.Format, mutClass(c.Mut), check) }
+	if c.Mut == "big-bodies" {
+		c.Text = bigBodiesFile(c.Format)
+		defer func() { c.Text = nil }()
+	}
 	path := vkit.WriteMem(c.Text)
 	defer vkit.RemoveMem(path)
 	conf := map[string]any{"type": typeName[c.Format], "file": path, "passes": 1}
@@ -201,6 +241,9 @@ func runAmmo(res *vkit.Result, c Case, final bool, watchdog time.Duration) strin
 	}
 	if strings.Contains(c.Mut, "chosencases-none") {
 		conf["chosencases"] = []any{"verif-no-such-tag"}
+	}
+	if strings.Contains(c.Mut, "missing-file") {
+		vkit.RemoveMem(path)
 	}
 	var p core.Provider
 	var err error
@@ -255,6 +298,32 @@ func runAmmo(res *vkit.Result, c Case, final bool, watchdog time.Duration) strin
 				res.Count("late_consumer_runs", 1)
 				res.Count("late_consumer_entries", int64(len(late.Items)))
 			}
+		}
+	}
+	if c.Mut == "big-bodies" {
+		for i, a := range dr.Items {
+			if i >= len(bigBodySizes) {
+				break
+			}
+			g, err := vkit.OpenHTTPAmmo(a)
+			if err != nil {
+				res.Violate(key("prefix-altered"), fmt.Sprintf("entry %d cannot be opened: %v", i, err), Case{Kind: c.Kind, Format: c.Format, Mut: c.Mut, Preload: c.Preload})
+				break
+			}
+			if want := bytes.Repeat([]byte{byte('a' + i)}, bigBodySizes[i]); !bytes.Equal(g.Body, want) {
+				first := -1
+				for k := 0; k < len(g.Body) && k < len(want); k++ {
+					if g.Body[k] != want[k] {
+						first = k
+						break
+					}
+				}
+				res.Violate(key("prefix-altered"), fmt.Sprintf("entry %d precedes the malformed line and has a body of %d bytes %q; it was delivered with %d bytes, first difference at offset %d", i, len(want), string(want[:1]), len(g.Body), first),
+					Case{Kind: c.Kind, Format: c.Format, Mut: c.Mut, Preload: c.Preload})
+				break
+			}
+			res.Count("intact_entries_compared", 1)
+			res.Count("big_bodies_compared", 1)
 		}
 	}
 	// well-formed entries before the corruption must come out unchanged
